@@ -81,6 +81,7 @@ pub enum Ctl {
     Kill,
 }
 
+#[allow(dead_code)]
 pub struct NodeHandle {
     pub idx: u32,
     pub peer: PeerId,
